@@ -68,6 +68,7 @@ func (h *Handler6) spoofLoop(dstAddr packet.Addr) {
 	}
 	for {
 		h.Lock()
+		closeChan := h.closeChan // replaced by ProcessPacket on every RA: read it under the lock
 
 		if h.huntList.Index(dstAddr.MAC) == -1 || h.closed {
 			h.Unlock()
@@ -126,7 +127,7 @@ func (h *Handler6) spoofLoop(dstAddr packet.Addr) {
 		}
 
 		select {
-		case <-h.closeChan:
+		case <-closeChan:
 			// icmp6 spoof goroutines wait on this channel to receive
 			// notifications of new Router Advertisements send by the lan router.
 			//
